@@ -191,7 +191,11 @@ fn run_group_shares(cx: &mut CaseCx, _case: &Value) {
   let rnd = local_randomness(&m, b"t", 2);
   let s1 = gen_report(&m, b"t", 2, &rnd, &None).unwrap().share.to_bytes();
   let s2 = gen_report(&m, b"t", 2, &rnd, &None).unwrap().share.to_bytes();
-  let mut lines: Vec<String> = vec![BASE64_STANDARD.encode(&s1), BASE64_STANDARD.encode(&s2), "".into(), "!".into(), "AAAA".into(), "A".into(), "AA==".into(), "AAA".into(), "====".into(), " ".into(), "\r".into(), "é".into(), BASE64_STANDARD.encode(&s1).trim_end_matches('=').to_string(), format!("{}=", BASE64_STANDARD.encode(&s1)), BASE64_STANDARD.encode(&s1).replace('+', "-").replace('/', "_")];
+  // shares of the same measurement created under OTHER thresholds, and of another measurement
+  let s3 = gen_report(&m, b"t", 3, &local_randomness(&m, b"t", 3), &None).unwrap().share.to_bytes();
+  let s4 = gen_report(&m, b"t", 1, &local_randomness(&m, b"t", 1), &None).unwrap().share.to_bytes();
+  let s5 = gen_report(b"other", b"t", 2, &local_randomness(b"other", b"t", 2), &None).unwrap().share.to_bytes();
+  let mut lines: Vec<String> = vec![BASE64_STANDARD.encode(&s1), BASE64_STANDARD.encode(&s2), BASE64_STANDARD.encode(&s3), BASE64_STANDARD.encode(&s4), BASE64_STANDARD.encode(&s5), "".into(), "!".into(), "AAAA".into(), "A".into(), "AA==".into(), "AAA".into(), "====".into(), " ".into(), "\r".into(), "é".into(), BASE64_STANDARD.encode(&s1).trim_end_matches('=').to_string(), format!("{}=", BASE64_STANDARD.encode(&s1)), BASE64_STANDARD.encode(&s1).replace('+', "-").replace('/', "_")];
   for n in 0..s1.len() {
     lines.push(BASE64_STANDARD.encode(&s1[..n]));
   }
@@ -210,10 +214,10 @@ fn run_group_shares(cx: &mut CaseCx, _case: &Value) {
     call(cx, "\n", ep);
     for a in &lines {
       call(cx, a, ep);
-      for b in lines.iter().take(15) {
+      for b in lines.iter().take(18) {
         call(cx, &format!("{}\n{}", a, b), ep);
         call(cx, &format!("{}\n{}", b, a), ep);
-        for c in lines.iter().take(5) {
+        for c in lines.iter().take(8) {
           call(cx, &format!("{}\n{}\n{}", b, a, c), ep);
         }
       }
